@@ -473,12 +473,13 @@ def partition_wrap(ctx, T, depth, tail):
 def wrap_ref(ctx, T, op, form, method, result, depth, tail, unit=False):
     """wrapper whose closure receives `&T` and must yield bool (or () for inspect)"""
     inner = []
-    if ctx.is_async:
+    lazy = ctx.is_async or result[0] == 'Iter'
+    if lazy:
         ctx.no_caps += 1
     try:
         return _wrap_ref(ctx, T, op, form, method, result, depth, tail, unit)
     finally:
-        if ctx.is_async:
+        if lazy:
             ctx.no_caps -= 1
 
 
@@ -505,7 +506,9 @@ def wrap_val(ctx, T, op, method, need, result_of, depth, tail):
     multi = need in ('val', 'OptVal')      # iterator wrappers: closure called once per element
     if multi:
         ctx.multi_call += 1
-    if ctx.is_async:
+    # a block capture inside a wrapper is borrowed by the (non-move) wrapper closure: the closure must not
+    # outlive the step (lazy iterator adaptors in the spawn kinds) nor be required to be 'static (async kinds)
+    if ctx.is_async or multi:
         ctx.no_caps += 1
     try:
         if isinstance(need, tuple):
@@ -522,7 +525,7 @@ def wrap_val(ctx, T, op, method, need, result_of, depth, tail):
     finally:
         if multi:
             ctx.multi_call -= 1
-        if ctx.is_async:
+        if ctx.is_async or multi:
             ctx.no_caps -= 1
     a = Act(op, 'method', method, inner=inner, close=not open_tail)
     return (a, result_of(u))
@@ -1664,7 +1667,7 @@ def slice_programs(slice_name, tier, master_seed, base_id):
                     i += 1
         return progs
     prof = dict(PROFILES[slice_name])
-    n_random = {'quick': 48, 'thorough': 400}[tier]
+    n_random = {'quick': 48, 'thorough': 300}[tier]
     i = 0
 
     def add(profile, family, tag, **kw):
